@@ -490,6 +490,11 @@ func c14Gen(r *lib.Rng, thorough bool) *c14Plan {
 	if thorough && r.Chance(1, 6) {
 		lenNew = r.Range(5*ovBuf, 9*ovBuf)
 	}
+	if !thorough && lenNew > 2*ovBuf+1 && r.Chance(2, 3) {
+		// the quick tier keeps a few multi-window cases and draws most lengths below 2 windows
+		// (the model evaluates every byte inside Coq)
+		lenNew = []int{ovThr + 1, 70000, ovBuf - 1, ovBuf, ovBuf + 1, ovBuf + ovThr + 1, 2*ovBuf - 1, 2 * ovBuf, 2*ovBuf + 1}[r.Intn(9)]
+	}
 	writes := c14Partition(r, lenNew, p)
 	p.Sess = c14Schedule(r, writes, p)
 	c14Contents(r, lenNew, c14Windows(p.Sess), p)
@@ -1165,7 +1170,7 @@ func runC14(c *Ctx) error {
 			idx++
 		}
 	}
-	n := c.N(56, 600)
+	n := c.N(44, 450)
 	if c.Tier == "search" {
 		n = 500
 	}
